@@ -61,7 +61,7 @@ func (sc *Scenario) E3Eligible() bool {
 		return false
 	}
 	// session-4 world features that the real-socket replayer does not model
-	if sc.RealBoot || sc.NoProbeDrain || sc.BusyTicks || sc.ServerConns > 1 || sc.SlowBackends || sc.CoalesceAll || sc.CoalesceChoice || sc.Info != nil || sc.ProbePiece > 0 || sc.SlowlogMs > 0 || sc.DebugLog {
+	if sc.RealBoot || sc.NoProbeDrain || sc.BusyTicks || sc.ServerConns > 1 || sc.SlowBackends || sc.Info != nil || sc.ProbePiece > 0 || sc.SlowlogMs > 0 || sc.DebugLog {
 		return false
 	}
 	for _, n := range sc.Nodes {
